@@ -82,6 +82,11 @@ def sm():
 def make(kind, form='1d', alt=0):
     """a FRESH value of the kind"""
     S = sm()
+    if kind.endswith('@T'):
+        # the same numbers in column-major memory, as the transpose of a C-ordered table is (P.T of an N x 3 array of points, X.t.T, a block
+        # sliced out of a larger array): a view that does not own its data, for which "make it contiguous" conversions of its transpose copy nothing
+        a = make(kind[:-2], form, alt)
+        return np.ascontiguousarray(a.T).T
     if kind in VECS:
         v = np.array(VECS[kind], dtype=float) * (1 + 0.5 * alt)
         if kind == 'q':
@@ -437,6 +442,23 @@ def descriptors():
     # 7. random constructors (outputs may differ; arguments must not change)
     for cn in ('SO2', 'SE2', 'SO3', 'SE3', 'UnitQuaternion', 'Twist3'):
         out.append(D('%s.Rand' % cn, (lambda cn: (lambda: getattr(sm(), cn).Rand()))(cn), [], rand=True, site=cn + '.Rand'))
+    # 8. memory layout: every matrix-argument base function, and the methods / operators that take a block of points, once more with
+    #    column-major arguments
+    ARR2 = ('R3', 'T3', 'R2', 'T2', 'pts3', 'pts2', 'so3m', 'se3m', 'so2m', 'se2m', 'qN')
+    out.append(D('Plucker.contains/PL,pts3', lambda x, p: x.contains(p), ['PL', 'pts3'], {}, site='Plucker.contains'))
+    out.append(D('Plucker.contains/PLp,pts3', lambda x, p: x.contains(p), ['PLp', 'pts3'], {}, site='Plucker.contains'))
+    extra = []
+    for d in out:
+        if (d.name.startswith('base.') or d.name.startswith(('Plucker.contains/', 'op '))) and any(k in ARR2 for k in d.kinds) and not d.mut and not d.rand:
+            if d.name.startswith('base.trprint'):
+                continue
+            kk = [k + '@T' if k in ARR2 else k for k in d.kinds]
+            e = D(d.name + '/colmajor', d.f, kk, dict(d.consts), site=d.site)
+            for a in ('aug', 'vecforms', 'small'):
+                if hasattr(d, a):
+                    setattr(e, a, getattr(d, a))
+            extra.append(e)
+    out += extra
     _DESC.extend(out)
     return _DESC
 
